@@ -30,6 +30,8 @@ pub fn times() -> Vec<NaiveTime> {
     vec![
         NaiveTime::from_hms_opt(0, 0, 0).unwrap(),
         NaiveTime::from_hms_micro_opt(12, 30, 15, 250_000).unwrap(),
+        // two instants within one second: conversions must keep them apart
+        NaiveTime::from_hms_micro_opt(12, 30, 15, 750_000).unwrap(),
         NaiveTime::from_hms_micro_opt(23, 59, 59, 999_999).unwrap(),
     ]
 }
@@ -37,11 +39,12 @@ pub fn datetimes() -> Vec<NaiveDateTime> {
     let d = dates();
     let t = times();
     vec![
-        d[0].and_time(t[2]),
+        d[0].and_time(t[3]),
         d[1].and_time(t[1]),
+        d[1].and_time(t[2]),
         d[2].and_time(t[0]),
         d[3].and_time(t[1]),
-        d[4].and_time(t[2]),
+        d[4].and_time(t[3]),
     ]
 }
 
